@@ -230,9 +230,16 @@ MALFORMED = [
 ]
 
 
+LONG_VALID = ["1" + "0" * 90, "0" + "7" * 90, "0x" + "1f" * 45 + "UL", "0b" + "01" * 45, "0." + "0" * 90 + "1", "." + "5" * 90 + "f",
+              "1e+" + "0" * 90 + "1", "1." + "2" * 45 + "e-" + "3" * 45 + "L", "0x1." + "8" * 90 + "p3"]
+LONG_MALFORMED = [("0b" + "0" * 90 + "2", "INVALID_BIN_INT"), ("0" + "0" * 90 + "8", "INVALID_OCT_INT"),
+                  ("1" * 90 + "xyz", "INVALID_SUFFIX"), ("1." + "0" * 90 + "fl", "BAD_FLOAT_SUFFIX")]
+
+
 def op_literals(task):
     thorough = task.get("thorough")
     ints, floats = valid_constants(task.get("maxlen", 3), thorough)
+    ints = ints + LONG_VALID
     viol, cases = [], 0
     for lit in ints + floats:
         for fol in (FOLLOW if thorough else FOLLOW[:3]):
@@ -266,7 +273,7 @@ def op_literals(task):
             if r["exc"] or want not in names:
                 viol.append({"what": f"literal cut off at the end of the input {pre!r}: expected {want}, got {names} "
                                      f"{r['exc'] or ''}", "text": pre})
-    for lit, name in MALFORMED:
+    for lit, name in MALFORMED + LONG_MALFORMED:
         cases += 1
         r = lex(lit)
         names = [e["name"] for e in r["errors"]]
